@@ -167,8 +167,16 @@ AUDIOS = ["none", "aac-lc", "aac-main", "aac-ssr", "aac-ltp", "aac-he", "aac-hev
 def annexb_tail(rng, codec, f):
     """Annex B frames now and then end in a dangling start code or in zero bytes (both legal byte
     streams: trailing_zero_8bits / an empty last unit); the scanner's end-of-buffer cases"""
-    if codec in ("h264", "h265") and rng.random() < 0.08:
+    r = rng.random()
+    if codec in ("h264", "h265") and r < 0.08:
         return f + rng.choice([SC3, SC3, SC4, b"\x00", b"\x00\x00", b"\x00\x00\x00", SC3 + SC3, b"\x00" + SC3])
+    if 0.08 <= r < 0.14:
+        # frames of every codec that END in padding-like bytes: cabac_zero_words (00 00 03, repeated), a lone 03,
+        # and for the frame-based codecs zero bytes and start-code look-alikes - all of it payload, to be stored as submitted
+        tails = [b"\x00\x00\x03", b"\x00\x00\x03" * 2, b"\x00\x00\x03" * 3, b"\x03", b"\x00\x03", b"\xff\x00\x00\x03"]
+        if codec in ("vp9", "av1"):
+            tails += [b"\x00", b"\x00\x00", b"\x00\x00\x01", b"\x00\x00\x00\x01"]
+        return f + rng.choice(tails)
     return f
 
 
@@ -884,16 +892,41 @@ def gen_C06(rng, tier, dist):
         else:
             dist["c06_sink=reliable"] += 1
         out.append(pcase(cfg, ops))
-    return out
+    # "the exact number of bytes delivered": samples far larger than any buffer a writer might chop its output into
+    return out + large_frame_cases(rng, tier, dist)
 
 
 def gen_C09(rng, tier, dist):
     return gen_hist_cases(rng, tier, dist, 400, 25000, audio=None) + smallscope_histories(tier, dist, maxlen=3 if tier == "quick" else 4)
 
 
+def big_header_cases(rng, tier, dist, extra=""):
+    """movie boxes larger than 64 KiB / 1 MiB: through a long title, or through thousands of samples with irregular
+    durations and sizes (nothing run-length-compresses)"""
+    out = []
+    for n in ([65000, 65536, 70000] if tier == "quick" else [4096, 65000, 65400, 65536, 66000, 70000, 140000, (1 << 20) + 5]):
+        title = bytes(rng.choice(b"abc XYZ") for _ in range(n))
+        cfg, ops, info = gen_history(rng, dist, md=dict(md=1, title=title, ctime=None, lang=None), nv=rng.randrange(1, 5),
+                                     na=rng.randrange(0, 3), rejects=0.0, start=0.0)
+        out.append(pcase(cfg + (" " + extra if extra else ""), ops))
+        dist["big_header_title=%d" % n] += 1
+    for n in ([3000] if tier == "quick" else [3000, 6000, 20000]):
+        codec = rng.choice(["vp9", "av1"])
+        ops, t = [], 0.0
+        for i in range(n):
+            fr = key_frame(rng, codec) if i == 0 else bytes([rng.randrange(256) for _ in range(rng.randrange(1, 4))])
+            ops.append("wv %s %s %d" % (f64bits(t), hx(fr), 1 if i == 0 else 0))
+            t += rng.choice([1 / 30, 1 / 25, 0.05])
+        ops.append("fins")
+        out.append(pcase(cfg_str(codec=codec, audio="none", fast=1) + (" " + extra if extra else ""), ops))
+        dist["big_header_samples=%d" % n] += 1
+    return out
+
+
 def gen_C08(rng, tier, dist):
     return gen_hist_cases(rng, tier, dist, 400, 25000, extra="twin=fast", rejects=0.05) + \
-        smallscope_histories(tier, dist, extra="twin=fast", maxlen=3 if tier == "quick" else 4)
+        smallscope_histories(tier, dist, extra="twin=fast", maxlen=3 if tier == "quick" else 4) + \
+        big_header_cases(rng, tier, dist, extra="twin=fast")
 
 
 def gen_C18(rng, tier, dist):
@@ -1006,8 +1039,32 @@ def contract_history(rng, dist, codec, audio, maxlen=12, with_enc=True):
     return ops
 
 
-def gen_C04(rng, tier, dist):
+def long_track_histories(rng, tier, dist):
+    """two tracks that each run for hours: every gap fits the 32-bit duration field; a track's total may or may not
+    (47721.86 s at 90 kHz), and the two totals together often do not although each does"""
     out = []
+    for _ in range(80 if tier == "quick" else 4000):
+        codec = rng.choice(VCODECS)
+        audio = rng.choice(["aac-lc", "opus", "aac-lc", "none"])
+        ev = []
+        t = 0.0
+        for i in range(rng.randrange(2, 5)):
+            ev.append((t, 0, "wv %s %s %d" % (f64bits(t), hx(key_frame(rng, codec) if i == 0 else delta_frame(rng, codec)), 1 if i == 0 else 0)))
+            t += rng.choice([6000.0, 12000.0, 24000.0, 30000.0, 47000.0, 47721.0])
+        dist["long_track_video_total=%s" % ("over" if ev[-1][0] > 47721.85 else "within")] += 1
+        if audio != "none":
+            t = 0.0
+            for i in range(rng.randrange(1, 5)):
+                ev.append((t, 1, "wa %s %s" % (f64bits(t), hx(audio_frame(rng, audio)))))
+                t += rng.choice([6000.0, 12000.0, 24000.0, 30000.0, 47000.0, 47721.0])
+        ev.sort(key=lambda e: (e[0], e[1]))
+        out.append(pcase(cfg_str(codec=codec, audio=audio, fast=rng.randrange(2)), [e[2] for e in ev] + ["fins"]))
+        dist["long_track_histories"] += 1
+    return out
+
+
+def gen_C04(rng, tier, dist):
+    out = long_track_histories(rng, tier, dist)
     n = 2500 if tier == "quick" else 120000
     for _ in range(n):
         codec = rng.choice(VCODECS)
@@ -1168,10 +1225,10 @@ def frag_smallscope(tier, dist, L=None):
 
 
 def frag_long_cases(rng, dist):
-    """fragments of more than a hundred samples (queue growth / reuse thresholds at powers of two), followed by
-    short fragments and an empty flush"""
+    """fragments of more than a hundred and of several thousand samples (queue growth / reuse / splitting thresholds at
+    powers of two), followed by short fragments and an empty flush"""
     out = []
-    for cnt in (127, 128, 129, 130, 200, 257):
+    for cnt in (127, 128, 129, 130, 200, 257, 1023, 1024, 1025, 1500, 4097):
         ops, dts = [], rng.choice([0, 90000])
         for seg in (cnt, 3, 0, 2):
             for i in range(seg):
@@ -1296,6 +1353,12 @@ def gen_C13(rng, tier, dist):
         for k in (5, 17, 33, 65, 129, 300):
             out.append(pcase(cfg + " sink=script:%s twin=nofault" % ",".join(["a%d" % rng.choice([1, 9, 100000])] * rng.randrange(0, 3) + ["i"] * k), ops2))
             dist["script_interrupted_run=%d" % k] += 1
+        # a sink whose flush reports a fault although every write succeeded: not a failed write - the complete
+        # file was delivered, so finish reports success and the fault-free byte count
+        for fl in ("i", "i,i,i", "f3", "f16,f16,f16,f16", "f%d" % rng.randrange(17), "i,f%d" % rng.randrange(17)):
+            pol = rng.choice(["flush:%s", "cap:5+flush:%s", "script:a3,i,a100000+flush:%s", "cap:1+intr:3,9+flush:%s"]) % fl
+            out.append(pcase(cfg + " sink=%s twin=nofault" % pol, ops2))
+            dist["flush_fault"] += 1
         for per in (1, 2, 3):
             n = rng.choice([120, 400])
             script = ",".join("i" if j % (per + 1) == per else "a%d" % rng.choice([1, 2, 7]) for j in range(n))
